@@ -240,6 +240,7 @@ func (d Driver) Run(c *core.Ctx) error {
 		"the observation point is the Canvas -> Renderer interface (recorded path, style, matrix); fills are evaluated with the winding oracle, strokes with the reference pen model of harness/internal/oracle/strokeregion.go applied to the recorded width/cap/join/miter limit",
 		"sample points are classified by the spec with exact integer arithmetic; samples within 1/8 user unit of a curved or stroked boundary, in the control hull of a Bezier segment or on a polygon edge are free",
 		"geometry is compared relative to the returned canvas (viewport fractions), the absolute size separately",
+		"when exactly one of width / height of the root is a percentage or absent, that side is expected to take the viewBox size in px (ParseSVG's own convention; SVG leaves it to the embedding context); with both absent the size is not constrained",
 		"fill-rule, opacity, dashes, markers, gradients, text and percentages are outside the generated grammar (fill-rule only through the round trip)",
 	}
 	var nEval, nNT, nRT int64
